@@ -393,6 +393,124 @@ func checkSort(t sortTrace) *mc.Failure {
 	return nil
 }
 
+// longCase is one fixed long history on a heap of up to N elements.
+type longCase struct {
+	N       int    `json:"n"`
+	Pattern string `json:"pattern"` // asc desc perm dups5 equal
+	Desc    bool   `json:"desc,omitempty"`
+	Data    bool   `json:"with_data,omitempty"` // start from NewWithData of the first third
+}
+
+func longValues(n int, pattern string) []int {
+	out := make([]int, n)
+	x := uint64(n)*2654435761 + 99
+	for i := range out {
+		x = x*6364136223846793005 + 1442695040888963407
+		switch pattern {
+		case "asc":
+			out[i] = i
+		case "desc":
+			out[i] = n - i
+		case "dups5":
+			out[i] = int((x >> 33) % 5)
+		case "equal":
+			out[i] = 3
+		default:
+			out[i] = int((x >> 33) % uint64(4*n+1))
+		}
+	}
+	return out
+}
+
+// longOps expands a long case into its operations (the positions given to
+// Remove depend only on the current length, which the history determines).
+func longOps(c longCase) (start []int, ops []op) {
+	vals := longValues(c.N, c.Pattern)
+	n := 0
+	if c.Data {
+		start = vals[:c.N/3]
+		n = len(start)
+	}
+	for _, v := range vals[n:] {
+		ops = append(ops, op{K: "add", A: v})
+	}
+	n = c.N
+	x := uint64(c.N)*40503 + 7
+	for k := 0; k < c.N/2 && n > 0; k++ {
+		x = x*6364136223846793005 + 1442695040888963407
+		i := int((x >> 33) % uint64(n))
+		if k%5 == 0 {
+			i = n - 1
+		}
+		ops = append(ops, op{K: "remove", A: i})
+		n--
+		if k%2 == 0 {
+			ops = append(ops, op{K: "add", A: vals[(k*7)%len(vals)]})
+			n++
+		}
+		if k%11 == 3 {
+			ops = append(ops, op{K: "pop"})
+			n--
+		}
+	}
+	ops = append(ops, op{K: "reorder"})
+	for k := 0; k < n/3; k++ {
+		ops = append(ops, op{K: "pop"})
+	}
+	rev := append([]int(nil), vals...)
+	for i, j := 0, len(rev)-1; i < j; i, j = i+1, j-1 {
+		rev[i], rev[j] = rev[j], rev[i]
+	}
+	// a Set that shrinks the queue, then one that grows it again
+	short := append([]int(nil), vals[:min(5, len(vals))]...)
+	ops = append(ops, op{K: "set", Vs: short}, op{K: "pop"}, op{K: "set", Vs: rev}, op{K: "reorder"})
+	n = len(rev)
+	for k := 0; n > 0; k++ {
+		if k%3 == 2 {
+			ops = append(ops, op{K: "remove", A: n / 2})
+		} else {
+			ops = append(ops, op{K: "pop"})
+		}
+		n--
+	}
+	return start, append(ops, op{K: "pop"}, op{K: "remove", A: 0})
+}
+
+func checkLong(c longCase) *mc.Failure {
+	return mc.GuardT("heap-long", c, func() *mc.Failure {
+		start, ops := longOps(c)
+		var local counters
+		s := &inst{c: &cfg{}, cnt: &local, desc: c.Desc}
+		if c.Data {
+			data := make([]int, len(start), len(start)+2)
+			copy(data, start)
+			s.q = heapq.NewWithData(s.cmp(), data)
+			s.ref = append([]int(nil), start...)
+			sort.Ints(s.ref)
+		} else {
+			s.q = heapq.New(s.cmp())
+		}
+		if f := s.observe(); f != nil {
+			return f
+		}
+		for i, o := range ops {
+			if f := s.Apply(o, true); f != nil {
+				f.Step = i
+				if len(f.Msg) > 400 {
+					f.Msg = f.Msg[:400] + "..."
+				}
+				what := o.String()
+				if len(what) > 40 {
+					what = what[:40] + "..."
+				}
+				f.Msg = fmt.Sprintf("long history (%d elements, %s), call %d %s: %s", c.N, c.Pattern, i, what, f.Msg)
+				return f
+			}
+		}
+		return nil
+	})
+}
+
 func main() {
 	var cnt counters
 	mc.Main("C05",
@@ -430,6 +548,38 @@ func main() {
 				}
 				var local counters
 				return makeBFS(&cf, &local).Replay(c)
+			},
+		},
+		mc.Harness{
+			Name: "heap-long",
+			Explore: func(r *mc.Run) {
+				var cases []longCase
+				for _, n := range mc.Pick(r, []int{17, 33, 64, 65, 130, 300}, []int{17, 33, 64, 65, 130, 300, 513, 1025}) {
+					for _, p := range []string{"asc", "desc", "perm", "dups5", "equal"} {
+						for _, d := range []bool{false, true} {
+							cases = append(cases, longCase{n, p, d, false}, longCase{n, p, d, true})
+						}
+					}
+				}
+				var calls int64
+				mc.ParallelFor(len(cases), r.Workers, func(i int) {
+					if f := checkLong(cases[i]); f != nil {
+						r.Violation(mc.Case{Harness: "heap-long", Trace: mc.J(cases[i]), Msg: f.Msg, Step: f.Step})
+					}
+					_, ops := longOps(cases[i])
+					atomic.AddInt64(&calls, int64(len(ops)))
+				})
+				n := int64(len(cases))
+				r.AddEval(n, calls, calls, n)
+				r.Rule("fixed long histories (fill in five value patterns, thin out by Remove at positions on every level with re-adds and pops, Reorder, Set of the reversed values, drain by Pop and Remove) on heaps of 17...300/1025 elements, both directions, from New and NewWithData; the full observation of the BFS (contents, Front, Each, drain of a copy) after every call")
+				r.Sample(longCase{65, "dups5", false, true})
+			},
+			Replay: func(c mc.Case) *mc.Failure {
+				var l longCase
+				if err := mc.Unmarshal(c.Trace, &l); err != nil {
+					return mc.Failf(-1, "bad trace: %v", err)
+				}
+				return checkLong(l)
 			},
 		},
 		mc.Harness{
